@@ -854,3 +854,32 @@ SPECS["C19"] = dict(
     floor_evals={"quick": 12, "thorough": 300},
     floor_nontrivial={"quick": 12, "thorough": 300},
 )
+
+
+# ---------------------------------------------------------------------------
+# what each check claims (MANIFEST level_claimed.text / level_note)
+
+LEVEL_TEXT = {
+    "C01": "Exploration: every embedded corpus document (all 431) and seeded synthetic corpora are planted into out-of-vocabulary context at thresholds 0.7-1.0 and the reported match is compared with positions known from the construction. Held on the executions observed; the input space (contexts, user corpora) is unbounded, so no stronger level is claimed.",
+    "C02": "Exploration with an independent oracle: every license match returned for thousands of edited / truncated / concatenated / adversarial inputs is re-scored with a word-level Levenshtein distance computed by the harness (banded DP) and its lines are checked against the token view and, for generator-built layouts, the physical lines. A universal claim over inputs cannot be enumerated; held on what was generated.",
+    "C03": "Exploration: direct invariant check (threshold, known triple, line and token ranges, ordering, Copyright shape) on every result of seeded workloads at nine thresholds from 0.01 to 1.0, including hostile bytes and hyphen/blank-line layouts.",
+    "C04": "Exploration across processes: the same seeded queries are answered by 8 separately started processes (different map-iteration seeds) in 8 corpus/trace configurations, three times each with other calls in between; results are compared bit for bit in returned order. Nondeterminism that needs a particular map order is only seen if some process draws it - hence several processes, and still only 'held on what was observed'.",
+    "C05": "Exploration (metamorphic): presentation transformations and their compositions are applied to license-bearing texts; results must agree exactly. The transformation space is unbounded.",
+    "C06": "Exploration (metamorphic) with nine recorded findings handled by token-level signatures; everything outside the signatures is reported.",
+    "C07": "Exploration (metamorphic over six placements per text); one recorded finding (clamp at token 0) handled by a subset-relation signature.",
+    "C08": "Fault enumeration: for each selected input EVERY pad width 0..2056 and EVERY reader-failure offset 0..len(input) (two delivery styles) is executed, plus nine fragmenting readers; the enumeration is complete for those inputs (exhaustive=true), the choice of inputs is seeded.",
+    "C09": "Exploration of schedules: the Go race detector observes repeated concurrent storms (fresh classifier per storm, several processes) and every concurrent result is compared with the sequential one. The race detector only sees interleavings that occur; a clean run is not a proof of race freedom.",
+    "C10": "Exploration: structure-aware hostile inputs x thresholds x corpora under recover(), process-death attribution and a double-confirmed watchdog. Totality over all byte strings cannot be enumerated.",
+    "C11": "Exploration with two oracles (structural line alignment against the white-box token view; metamorphic Match(Normalize(in)) == Match(in)); three recorded findings handled by token-level signatures.",
+    "C12": "Exploration: generated directory trees x 11 spellings of the path; white-box corpus comparison and behavioural equivalence with AddContent; DefaultClassifier vs LoadLicenses(assets).",
+    "C13": "Exploration: generated value sets / unknown strings with offsets known by construction, one worker per process so that panics in the classifier's own goroutines are attributed to the case.",
+    "C14": "Exploration of schedules: race detector + porcupine linearizability check of recorded call histories against a per-key model + differential for read-only storms.",
+    "C15": "Exploration (differential): archives written by the real ArchiveLicenses for seeded subsets are loaded and compared with directly built classifiers on seeded queries.",
+    "C16": "Exploration: all corpus files (thorough) / a seeded sample (quick) x presentation variants must be identified; MultipleMatch confidences are checked against the threshold with an oracle that does not use the code's own comparison, including a sweep across the threshold cliff.",
+    "C17": "Exploration with an exhaustive core: tokenizer invariants on every string up to length 6/7 over an 8-symbol hostile alphabet (exhaustive=true for that sub-space) plus seeded strings and (source, target) pairs for the candidate-range invariants.",
+    "C18": "Exploration with an exhaustive core: differential against a reference lexer (own per-language syntax table) on every source string up to length 5-7 per language over its delimiter alphabet (exhaustive=true for that sub-space), seeded long programs, exhaustive short comment lists for ChunkIterator.",
+    "C19": "Exploration: the CLI built from the tree (also with -race) is run on generated trees with seeded flag combinations and compared with in-process Match results, JSON, Text and exit status.",
+    "C20": "Exploration with an exhaustive core: reference models in lock-step; every operation sequence up to the stated depth over a small universe (exhaustive=true for those bounded spaces), seeded long sequences; aliasing probes and white-box index scan.",
+}
+for _k, _v in LEVEL_TEXT.items():
+    SPECS[_k]["level_text"] = _v
